@@ -253,6 +253,28 @@ theorem payload_with_transaction_only_if_hash_matches (cfg : Cfg) (env : Env) (n
 
 /-! ### authentication -/
 
+/-- `Network.Configure` assigns the authenticator in exactly two places: the TLS authenticator under `tlsEnabled`,
+    the dummy authenticator under its negation, where strict mode returns an error first -/
+theorem fact_authenticator_selection :
+    Facts.C15.authenticatorAssignments = [["tlsEnabled", "grpc.NewTLSAuthenticator"], ["!(tlsEnabled)", "grpc.NewDummyAuthenticator"]] ∧
+    Facts.C15.strictTLSErrorGuard = ["!(tlsEnabled)", "config.Strictmode"] ∧ Facts.C15.strictErrorBeforeDummy = true := by decide
+
+/-- **the dummy authenticator is reachable only without TLS**: with TLS configured the TLS authenticator is
+    installed in strict AND non-strict mode; in strict mode the dummy authenticator is never installed -/
+theorem dummy_authenticator_only_without_tls (tlsEnabled strict : Bool) (k : AuthKind)
+    (h : configureAuthenticator tlsEnabled strict = .ok k) :
+    (tlsEnabled = true → k = .tls) ∧ (k = .dummy → tlsEnabled = false ∧ strict = false) := by
+  cases tlsEnabled <;> cases strict <;> simp [configureAuthenticator] at h <;> subst h <;> simp
+
+/-- hence on every node with TLS configured (either strict-mode value) a peer is marked authenticated with a claimed
+    DID only if its certificate is valid for the host of the NutsComm endpoint resolved for that DID -/
+theorem configured_authn_sound (strict : Bool) (k : AuthKind) (h : configureAuthenticator true strict = .ok k)
+    (e : AuthEnv) (claimed : String) (peer : Peer) (i : AuthIn) (hok : (authenticateWith k e claimed peer i).2 = "ok") :
+    ∃ dns ep host, i.cert = some dns ∧ i.endpoint = some ep ∧ e.parseHost ep = some host ∧ e.verifyHostname dns host = true := by
+  have hk : k = .tls := (dummy_authenticator_only_without_tls true strict k h).1 rfl
+  subst hk
+  exact (authn_sound_iff e claimed peer i).mp hok
+
 /-- **C15, part 4.** `Authenticate` marks the peer authenticated with the claimed DID iff the peer presented a
     certificate, a NutsComm endpoint was resolved for the claimed DID, it parses, and the certificate is valid for
     its host name; in every other case the peer is returned unchanged. -/
